@@ -121,24 +121,28 @@ def run_static_shallow_water(ctx):
   for impl in ('real', 'fast'):
     g = common.make_grid(3, 4, 10, 7, 'gauss', impl, **({'base_shape_multiple': 4} if impl == 'fast' else {}))
     coords = cs.CoordinateSystem(g, layer_coordinates.LayerCoordinates(2))
-    eq = C03._make_sw(sw, coords, np.array([0.8, 1.3]), np.array([1.0, 2.0]))
-    z = jnp.zeros(coords.modal_shape)
     mask = np.asarray(g.mask)
     keep = mask.copy()
     keep[:, g.total_wavenumbers - 1:] = False
-    # requires: the input state lies in Z (the potential enters the divergence tendency linearly through the Laplacian)
-    zm = np.broadcast_to(~keep, coords.modal_shape)
-    outs, tree, an, _ = jxa.analyze(eq.explicit_terms, (sw.State(z, z, z),), zero_masks=(sw.State(zm, zm, zm),))
-    res = jax.tree_util.tree_unflatten(tree, outs)
-    for lf in ('vorticity', 'divergence', 'potential'):
-      av = getattr(res, lf)
-      nm = f'shallow_water:{impl}:explicit_terms.{lf}: masked/top entries structurally zero'
-      bad = av.nz & ~np.broadcast_to(keep, av.nz.shape)
-      (out.ok(nm, 'static') if not bad.any() and av.nz[..., keep].any() else
-       out.fail(nm, witness={'impl': impl, 'leaf': lf}, detail=f'{int(bad.sum())} entries', key=nm))
-      nm = f'shallow_water:{impl}:explicit_terms.{lf}: (0,0) coefficient structurally zero (mean vorticity/divergence/thickness conserved)'
-      (out.ok(nm, 'static') if not av.nz[..., 0, 0].any() else
-       out.fail(nm, witness={'impl': impl, 'leaf': lf}, detail='(0,0) may be non-zero', key=nm))
+    # the orography is a user-supplied constant: an un-truncated mountain (energy in every resolved coefficient, the top total
+    # wavenumber included -- what grid.to_modal(nodal_mountain) gives) must not leak into the clipped entries either
+    mountain = np.where(mask, 0.3 + 0.1 * np.arange(mask.size).reshape(mask.shape) / mask.size, 0.0)
+    for oname, orog in (('flat', None), ('untruncated mountain', mountain)):
+      eq = C03._make_sw(sw, coords, np.array([0.8, 1.3]), np.array([1.0, 2.0]), orography=orog)
+      z = jnp.zeros(coords.modal_shape)
+      # requires: the input state lies in Z (the potential enters the divergence tendency linearly through the Laplacian)
+      zm = np.broadcast_to(~keep, coords.modal_shape)
+      outs, tree, an, _ = jxa.analyze(eq.explicit_terms, (sw.State(z, z, z),), zero_masks=(sw.State(zm, zm, zm),))
+      res = jax.tree_util.tree_unflatten(tree, outs)
+      for lf in ('vorticity', 'divergence', 'potential'):
+        av = getattr(res, lf)
+        nm = f'shallow_water:{impl}:{oname}:explicit_terms.{lf}: masked/top entries structurally zero'
+        bad = av.nz & ~np.broadcast_to(keep, av.nz.shape)
+        (out.ok(nm, 'static') if not bad.any() and av.nz[..., keep].any() else
+         out.fail(nm, witness={'impl': impl, 'leaf': lf, 'orography': oname}, detail=f'{int(bad.sum())} entries outside the clipped triangle may be non-zero', key=nm))
+        nm = f'shallow_water:{impl}:{oname}:explicit_terms.{lf}: (0,0) coefficient structurally zero (mean vorticity/divergence/thickness conserved)'
+        (out.ok(nm, 'static') if not av.nz[..., 0, 0].any() else
+         out.fail(nm, witness={'impl': impl, 'leaf': lf, 'orography': oname}, detail='(0,0) may be non-zero', key=nm))
   return out
 
 
@@ -363,7 +367,9 @@ def run_trajectory_twin(ctx):
          out.fail(nm, witness={'impl': impl, 'integrator': integ, 'filters': sname, **worst}, detail=str(worst), key=nm))
     # shallow water with leapfrog: mean thickness conserved
     coords = cs.CoordinateSystem(g, layer_coordinates.LayerCoordinates(2))
-    eqs = C03._make_sw(sw, coords, np.array([0.8, 1.3]), np.array([1.0, 2.0]))
+    mountain = np.where(mask, 0.05 * rng.randn(*mask.shape), 0.0)          # un-truncated: energy at the top total wavenumber too
+    mountain[0, 0] = 0.0
+    eqs = C03._make_sw(sw, coords, np.array([0.8, 1.3]), np.array([1.0, 2.0]), orography=mountain)
     sps = tendency.sw_space(eqs, impl)
     xs = jnp.asarray(rng.randn(sps.n) * 0.2)
     st = tendency.sw_state(sps, xs)
@@ -380,10 +386,64 @@ def run_trajectory_twin(ctx):
             worst['Z'] = max(worst['Z'], float(jnp.abs(jnp.where(jnp.asarray(keep), 0.0, a)).max()))
           worst['M0'] = max(worst['M0'], float(jnp.abs(s.potential[:, 0, 0] - st.potential[:, 0, 0]).max()),
                             float(jnp.abs(s.vorticity[:, 0, 0]).max()), float(jnp.abs(s.divergence[:, 0, 0]).max()))
-      nm = f'{impl}:shallow water leapfrog alpha={alpha} + exponential(cutoff=0.4) + Robert-Asselin: mean thickness/vorticity/divergence conserved'
+      nm = f'{impl}:shallow water over an un-truncated mountain, leapfrog alpha={alpha} + exponential(cutoff=0.4) + Robert-Asselin: top wavenumber exactly zero, mean thickness/vorticity/divergence conserved'
       ok = worst['Z'] == 0.0 and worst['M0'] <= 1e-13
       (out.ok(nm, 'numeric', sample={'obligation': nm, **worst}) if ok else out.fail(nm, witness={'impl': impl, 'alpha': alpha, **worst}, detail=str(worst), key=nm))
   return out
+
+
+def replay_invariants(w):
+  """Native re-run: a few steps of the real equations (primitive with time / tracer; shallow water over an un-truncated mountain)
+  from an admissible state; reports the first broken invariant with its numbers."""
+  jax = common.jx()
+  import jax.numpy as jnp
+  from dinosaur import time_integration as ti
+  from dinosaur import coordinate_systems as cs, layer_coordinates, shallow_water as sw
+  from props import C03
+  rng = np.random.RandomState(3)
+  dt = 0.01
+  msgs = []
+  for impl in ('real', 'fast'):
+    g = common.make_grid(3, 4, 10, 7, 'gauss', impl, **({'base_shape_multiple': 4} if impl == 'fast' else {}))
+    mask = np.asarray(g.mask)
+    keep = mask.copy()
+    keep[:, g.total_wavenumbers - 1:] = False
+    coords = cs.CoordinateSystem(g, layer_coordinates.LayerCoordinates(2))
+    mountain = np.where(mask, 0.05 * rng.randn(*mask.shape), 0.0)
+    mountain[0, 0] = 0.0
+    eqs = C03._make_sw(sw, coords, np.array([0.8, 1.3]), np.array([1.0, 2.0]), orography=mountain)
+    sps = tendency.sw_space(eqs, impl)
+    st = tendency.sw_state(sps, jnp.asarray(rng.randn(sps.n) * 0.2))
+    st = sw.State(st.vorticity, st.divergence, st.potential.at[:, 0, 0].add(0.7))
+    s = st
+    step = ti.crank_nicolson_rk2(eqs, dt)
+    for k in range(1, 4):
+      s = step(s)
+      z = max(float(jnp.abs(jnp.where(jnp.asarray(keep), 0.0, a)).max()) for a in (s.vorticity, s.divergence, s.potential))
+      m0 = max(float(jnp.abs(s.potential[:, 0, 0] - st.potential[:, 0, 0]).max()), float(jnp.abs(s.vorticity[:, 0, 0]).max()), float(jnp.abs(s.divergence[:, 0, 0]).max()))
+      if z != 0.0 or m0 > 1e-13:
+        msgs.append(f'{impl}: shallow water over an un-truncated mountain, crank_nicolson_rk2 step {k}: max |entry outside the clipped triangle| = {z:.3e}, drift of the means = {m0:.3e}')
+        break
+    sig = common.sigma_levels('uneven', 3, 0)
+    eq = common.make_primitive(g, sig, 'linear', cls='time')
+    sp_ = tendency.primitive_space(eq, impl)
+    base = tendency.primitive_state(sp_, jnp.asarray(rng.randn(sp_.n) * sp_.scale * 0.2), with_time=True)
+    qval = 0.01 * np.sqrt(4 * np.pi)
+    s0 = type(base)(base.vorticity, base.divergence, base.temperature_variation, base.log_surface_pressure, base.sim_time,
+                    {'q': jnp.zeros(eq.coords.modal_shape).at[:, 0, 0].set(qval)})
+    s = s0
+    step = ti.step_with_filters(ti.imex_rk_sil3(eq, dt), [ti.exponential_step_filter(g, dt, order=2, cutoff=0.4)])
+    for k in range(1, 4):
+      s = step(s)
+      z = max(float(jnp.abs(jnp.where(jnp.asarray(keep), 0.0, a)).max()) for a in (s.vorticity, s.divergence, s.temperature_variation, s.log_surface_pressure, s.tracers['q']))
+      m0 = max(float(jnp.abs(s.vorticity[:, 0, 0] - s0.vorticity[:, 0, 0]).max()), float(jnp.abs(s.divergence[:, 0, 0] - s0.divergence[:, 0, 0]).max()))
+      q = s.tracers['q']
+      u = max(float(jnp.abs(q.at[:, 0, 0].set(0.0)).max()), float(jnp.abs(q[:, 0, 0] - qval).max()))
+      clk = abs(float(s.sim_time) - k * dt)
+      if z != 0.0 or m0 > 1e-13 or u > 1e-12 or clk > 1e-13:
+        msgs.append(f'{impl}: primitive equations with time, imex_rk_sil3 + exponential filter step {k}: outside clipped triangle {z:.3e}, mean drift {m0:.3e}, tracer non-uniformity {u:.3e}, clock error {clk:.3e}')
+        break
+  return bool(msgs), ('; '.join(msgs) if msgs else 'invariants hold along the re-run trajectories (shallow water over a mountain, primitive equations with time and tracer)')
 
 
 def clauses(tier, seed):
@@ -395,14 +455,14 @@ def clauses(tier, seed):
                             'imex_runge_kutta', 'semi_implicit_leapfrog', 'step_with_filters')]
   return [
       Clause('static:explicit tendencies: structural zeros (mask, top wavenumber, means), clock constants, dependence', 'static', fns,
-             run_static_explicit, group='jax-a', heavy=True),
+             run_static_explicit, replay=replay_invariants, group='jax-a', heavy=True),
       Clause('static:shallow-water explicit tendencies: structural zeros and conserved means', 'static',
-             [SW + 'ShallowWaterEquations.explicit_terms'], run_static_shallow_water, group='jax-b', heavy=True),
-      Clause('numeric:linear parts preserve Z and the mean functionals (exact-zero blocks)', 'numeric', fns, run_linear_parts, group='jax-c', heavy=True),
-      Clause('static+numeric:uniform tracer stays uniform', 'numeric', fns, run_uniform_tracer, group='jax-d', heavy=True),
+             [SW + 'ShallowWaterEquations.explicit_terms'], run_static_shallow_water, replay=replay_invariants, group='jax-b', heavy=True),
+      Clause('numeric:linear parts preserve Z and the mean functionals (exact-zero blocks)', 'numeric', fns, run_linear_parts, replay=replay_invariants, group='jax-c', heavy=True),
+      Clause('static+numeric:uniform tracer stays uniform', 'numeric', fns, run_uniform_tracer, replay=replay_invariants, group='jax-d', heavy=True),
       Clause('exact:closure of the invariants under one step of every integrator (abstract/exact runs of the real step functions)', 'exact',
              integ, run_step_closure, group='symx'),
-      Clause('twin:trajectories keep the invariants [bounded]', 'numeric', fns + integ, run_trajectory_twin, group='jax-e', heavy=True),
+      Clause('twin:trajectories keep the invariants [bounded]', 'numeric', fns + integ, run_trajectory_twin, replay=replay_invariants, group='jax-e', heavy=True),
   ]
 
 
